@@ -130,7 +130,7 @@ func vHTTPRequests(n int) {
 	for i := 0; i < n; i++ {
 		id := vName("r", i)
 		before := lvl.Level()
-		method := []string{"GET", "PUT", "POST", "DELETE", "PATCH"}[vrt.Choice(id+".method", 5)]
+		method := []string{"GET", "PUT", "POST", "DELETE", "PATCH", "HEAD", "get", "put", "OPTIONS"}[vrt.Choice(id+".method", 9)]
 		req := &http.Request{Method: method, Header: http.Header{}}
 		wantChange, wantLevel := false, before
 		wantStatus := 200
@@ -206,7 +206,7 @@ func vHTTPRequests(n int) {
 	vrt.Cover("done")
 }
 
-//verif: prop=C20 bounds="1 request against an AtomicLevel at any valid initial level shared with a live logger: method in {GET, PUT, POST, DELETE, PATCH}; PUT with a URL-encoded form (level absent or a text) or a JSON body (malformed, without level, {level: text}, {level: null} or {level: number}; with or without the JSON content type) or another content type; text = a level name (either case of its first letter), a name with its last byte symbolic, a name plus one symbolic byte, or 0..2 symbolic bytes (printable ASCII). net/http form parsing and encoding/json tokenising are stubbed by contract"
+//verif: prop=C20 bounds="1 request against an AtomicLevel at any valid initial level shared with a live logger: method in {GET, PUT, POST, DELETE, PATCH, HEAD, OPTIONS, lower-case get/put}; PUT with a URL-encoded form (level absent or a text) or a JSON body (malformed, without level, {level: text}, {level: null} or {level: number}; with or without the JSON content type) or another content type; text = a level name (either case of its first letter), a name with its last byte symbolic, a name plus one symbolic byte, or 0..2 symbolic bytes (printable ASCII). net/http form parsing and encoding/json tokenising are stubbed by contract"
 func VC20HTTP1() { vHTTPRequests(1) }
 
 //verif: prop=C20 tier=thorough bounds="sequences of 2 requests (as VC20HTTP1)"
